@@ -699,7 +699,16 @@ class Engine:
             except Unsupported as u:
                 errors.append('unsupported: %s [path %s]' % (u, ';'.join(self.path.sig)))
             except PyExc as e:
-                errors.append('uncaught interpreted exception escaped the harness: %r [path %s]' % (e.value, ';'.join(self.path.sig)))
+                # the code under contract raised where its contract expects a normal return: a failed obligation
+                model = None
+                try:
+                    if self.path.solver.check() == z3.sat:
+                        model = self.extract_model(self.path.solver.model())
+                except Exception:
+                    pass
+                self.results.append(ObligationResult('returns_normally[unexpected %s]' % e.value.cls.name, 'refuted',
+                                                     ';'.join(self.path.sig), 0.0, model=model,
+                                                     reason='exception %r escaped the harness' % (e.value,)))
             except (ReturnSig, BreakSig, ContinueSig) as e:
                 errors.append('control signal escaped: %r' % e)
             finally:
